@@ -443,9 +443,11 @@ def enum_rank_cases(tier, seed):
     for r1, r2 in itertools.product(w3, repeat=2):
         if len(set(r1)) > 1 and len(set(r2)) > 1:
             yield dict(n=3, rows=[list(r1), list(r2)])
-    for r1, r2, r3 in itertools.product(w3, repeat=3):
-        if min(len(set(r1)), len(set(r2)), len(set(r3))) > 1:
-            yield dict(n=3, rows=[list(r1), list(r2), list(r3)])
+    triples = [t for t in itertools.product(w3, repeat=3) if min(len(set(r)) for r in t) > 1]
+    if tier != 'thorough':
+        triples = triples[(seed % 4)::4]
+    for r1, r2, r3 in triples:
+        yield dict(n=3, rows=[list(r1), list(r2), list(r3)])
     ident = [0.0, 1.0, 2.0, 3.0, 4.0, 5.0]
     w6 = cref.weak_orders(6)
     step = 13 if tier == 'thorough' else 400
